@@ -881,6 +881,31 @@ impl<'a> Gen<'a> {
         self.out.push_str(&format!("def {v} := {ctor}\n{f}({v})\n"));
     }
 
+    /// define a value, show it through a helper with a one-letter name, define another: the
+    /// placeholder of the string sits in the column (and has the width) of the variables of the
+    /// definitions around it
+    fn gen_show_values(&mut self) {
+        let h = ["q", "w", "k", "z", "j"][self.cur_file % 5];
+        if self.fstr_helper.insert(self.cur_file) {
+            self.out.push_str(&format!("def {h}(s: Str) => print(s)\n"));
+        }
+        let a = self.fresh("v");
+        let ta = self.prim();
+        let la = self.lit(&ta);
+        self.out.push_str(&format!("def {a} := {la}\n"));
+        if self.rng.chance(1, 2) {
+            self.out.push_str(&format!("{h}(\"{{{a}}}\")\n"));
+        } else {
+            self.out.push_str(&format!("{h}(\"{{{a}}} {}\")\n", self.rng.pick(WORDS)));
+        }
+        let b = self.fresh("v");
+        let tb = self.prim();
+        let lb = self.lit(&tb);
+        self.out.push_str(&format!("def {b} := {lb}\n"));
+        self.vars.push((a, ta));
+        self.vars.push((b, tb));
+    }
+
     /// A clash of same-named members BELOW the direct parents: two classes define a method
     /// and a field of one name with different types, a third has both as parents, and the
     /// members are used through a child (or grandchild) of the third.  Which one is
@@ -1162,7 +1187,7 @@ impl<'a> Gen<'a> {
 
     fn gen_toplevel(&mut self) {
         let v = self.fresh("v");
-        let kinds = if self.conservative { 17 } else { 33 };
+        let kinds = if self.conservative { 17 } else { 35 };
         match self.rng.below(kinds) {
             18 | 19 | 20 => self.gen_same_class_union(&v),
             21 | 22 | 23 => self.gen_union_receiver(&v),
@@ -1171,6 +1196,7 @@ impl<'a> Gen<'a> {
             27 | 28 => self.gen_chain_union(),
             29 | 30 => self.gen_user_generics(),
             31 | 32 => self.gen_deep_clash(),
+            33 | 34 => self.gen_show_values(),
             16 => {
                 let (ut, tys) = self.union_ty();
                 let k = self.rng.below(tys.len() as u64) as usize;
